@@ -65,7 +65,7 @@
         applying_yields(deref_seq(old_iter.remaining()), res.items@, deref_seq(new_iter.remaining())),
         // C11: counts match the listed actions
         res.counted(),
-        // C11 C12: the change set as a function of the two data sets
+        // C11 C12 C14: the change set as a function of the two data sets
         res.items@ == diff(deref_seq(old_iter.remaining()), deref_seq(new_iter.remaining())),
         // both iterators are run to completion: the data sets above are all they had to yield
         old_iter.will_return_none() && new_iter.will_return_none(),
@@ -81,7 +81,7 @@
     }
 //@ loop 1
         invariant_except_break
-            // C11 C12
+            // C11 C12 C14
             diff(O, N) == items.items@ + diff(rest(opt_old, old_iter.remaining()), rest(opt_new, new_iter.remaining())),
             items.items@.len() + rest(opt_old, old_iter.remaining()).len() + rest(opt_new, new_iter.remaining()).len() <= usize::MAX,
             old_iter.will_return_none() == wo0,
@@ -95,7 +95,7 @@
             opt_new is None ==> new_iter.remaining().len() == 0 && new_iter.will_return_none(),
             items.counted(),
         ensures
-            // C11 C12
+            // C11 C12 C14
             items.items@ =~= diff(O, N),
             wo0 && wn0,
         decreases
@@ -112,7 +112,7 @@
             }
 //@ loopend 1
             proof {
-                // C11 C12
+                // C11 C12 C14
                 assert(items0 + diff(ro0, rn0)
                     =~= items.items@ + diff(rest(opt_old, old_iter.remaining()), rest(opt_new, new_iter.remaining())));
             }
@@ -259,7 +259,7 @@
         asorted(firsts(new_iter.remaining())),
         old_iter.remaining().len() + new_iter.remaining().len() <= usize::MAX,
     ensures
-        // C11 C12: per customer, the change set says exactly what changed: nothing if the ASPA is unchanged,
+        // C11 C12 C14: per customer, the change set says exactly what changed: nothing if the ASPA is unchanged,
         // a withdrawal if the customer disappeared, an announcement if it is new, an update (carrying the
         // old providers) if only the provider set changed; one entry per customer, in customer order.
         // (C12: this is the premise AspaDelta::merge consumes.)
@@ -273,7 +273,7 @@
         aspa_applying_yields(firsts(old_iter.remaining()), res.items@, firsts(new_iter.remaining())),
         // C11: counts match the listed actions
         res.counted(),
-        // C11 C12: the change set as a function of the two data sets
+        // C11 C12 C14: the change set as a function of the two data sets
         res.items@ == adiff(firsts(old_iter.remaining()), firsts(new_iter.remaining())),
         // both iterators are run to completion: the data sets above are all they had to yield
         old_iter.will_return_none() && new_iter.will_return_none(),
@@ -312,7 +312,7 @@
     }
 //@ loop 1
         invariant_except_break
-            // C11 C12: what has been emitted plus what remains to be emitted is the change set old -> new
+            // C11 C12 C14: what has been emitted plus what remains to be emitted is the change set old -> new
             adiff(O, N) == items.items@ + adiff(rest(opt_old, old_iter.remaining()), rest(opt_new, new_iter.remaining())),
             items.items@.len() + rest(opt_old, old_iter.remaining()).len() + rest(opt_new, new_iter.remaining()).len() <= usize::MAX,
             old_iter.will_return_none() == wo0,
@@ -325,7 +325,7 @@
             opt_new is None ==> new_iter.remaining().len() == 0 && new_iter.will_return_none(),
             items.counted(),
         ensures
-            // C11 C12
+            // C11 C12 C14
             items.items@ =~= adiff(O, N),
             wo0 && wn0,
         decreases
@@ -344,7 +344,7 @@
             }
 //@ loopend 1
             proof {
-                // C11 C12: one step of the merge-join emits exactly the entry the change set has for this
+                // C11 C12 C14: one step of the merge-join emits exactly the entry the change set has for this
                 // customer (for an Update: carrying the OLD providers)
                 assert(items0 + adiff(ro0, rn0)
                     =~= items.items@ + adiff(rest(opt_old, old_iter.remaining()), rest(opt_new, new_iter.remaining())));
